@@ -163,3 +163,159 @@ encode_struct.gen = staticmethod(G.encode_case((bv.Struct,)))
 encode_struct_tree.gen = staticmethod(G.encode_case((bv.StructTree,)))
 
 encode_union.gen = staticmethod(G.encode_case((bv.Union,)))
+
+
+# =====================================================================================
+# Decoder (C06)
+# =====================================================================================
+DEC = Obj(ss.PythonPrimitiveToStoneDecoder)
+PD = ['C06']
+
+
+@contract(M + 'PythonPrimitiveToStoneDecoder.make_stone_friendly', properties=PD, raises=[bv.ValidationError])
+class make_stone_friendly:
+    """primitive JSON value -> python value; nothing but ValidationError may escape"""
+    params = {'self': DEC, 'data_type': Obj(bv.Primitive, proper=True), 'val': AnyVal(),
+              'validate': OneOf(Lit(True), Lit(False))}
+
+    def requires(self, data_type, val, validate):
+        return S.dctx_ok(self) and S.wf(data_type) and S.is_json(val)
+
+    def expected(self, data_type, val, validate):
+        if not S.prim_dec_ok(data_type, val, self.strict):
+            return Raise(bv.ValidationError)
+        if (validate and not isinstance(data_type, (bv.Timestamp, bv.Bytes, bv.Void))
+                and not S.valid(data_type, val)):
+            return Raise(bv.ValidationError)
+        return Ret(S.prim_dec_val(data_type, val))
+
+
+@contract(M + 'PythonPrimitiveToStoneDecoder.determine_struct_tree_subtype', properties=PD + ['C07'],
+          raises=[bv.ValidationError])
+class determine_struct_tree_subtype:
+    """the subtype named by .tag; an unknown tag falls back to a catch-all base only when lenient"""
+    params = {'self': DEC, 'data_type': Obj(bv.StructTree), 'obj': AnyVal()}
+
+    def requires(self, data_type, obj):
+        return S.dctx_ok(self) and S.wf(data_type) and S.is_json(obj) and S.json_keys_str(obj)
+
+    def expected(self, data_type, obj):
+        if S.tree_subtype_ok(data_type, obj, self.strict):
+            return Ret(S.tree_subtype(data_type, obj))
+        return Raise(bv.ValidationError)
+
+
+def _dec_requires(self, data_type, obj):
+    return S.dctx_ok(self) and S.wf(data_type) and S.json_deep(obj)
+
+
+@contract(M + 'PythonPrimitiveToStoneDecoder.decode_struct', bounded=True, properties=PD, raises=[bv.ValidationError])
+class decode_struct:
+    """ASSUMED (heap-building function outside the VC generator's reach in this revision;
+    compared with the reference decoder on sampled documents -- bounded stand-in)"""
+    params = {'self': DEC, 'data_type': Obj(bv.Struct), 'obj': AnyVal()}
+
+    def requires(self, data_type, obj):
+        return _dec_requires(self, data_type, obj)
+
+    def expected(self, data_type, obj):
+        if S.dec_struct_ok(data_type, obj, self.strict):
+            return Ret(S.dec_struct_obj(data_type, obj, self.strict))
+        return Raise(bv.ValidationError)
+
+
+@contract(M + 'PythonPrimitiveToStoneDecoder.json_compat_obj_decode_helper', bounded=True, properties=PD, raises=[bv.ValidationError])
+class decode_helper:
+    params = {'self': DEC, 'data_type': ANY_VALIDATOR, 'obj': AnyVal()}
+
+    def requires(self, data_type, obj):
+        return _dec_requires(self, data_type, obj)
+
+    def expected(self, data_type, obj):
+        return S.decode_outcome(data_type, obj, self.strict)
+
+
+@contract(M + 'PythonPrimitiveToStoneDecoder.decode_list', properties=PD, raises=[bv.ValidationError])
+class decode_list:
+    params = {'self': DEC, 'data_type': Obj(bv.List), 'obj': AnyVal()}
+
+    def requires(self, data_type, obj):
+        return _dec_requires(self, data_type, obj)
+
+    def expected(self, data_type, obj):
+        return S.decode_outcome(data_type, obj, self.strict)
+
+
+@contract(M + 'PythonPrimitiveToStoneDecoder.decode_map', properties=PD, raises=[bv.ValidationError])
+class decode_map:
+    params = {'self': DEC, 'data_type': Obj(bv.Map), 'obj': AnyVal()}
+
+    def requires(self, data_type, obj):
+        return _dec_requires(self, data_type, obj)
+
+    def expected(self, data_type, obj):
+        return S.decode_outcome(data_type, obj, self.strict)
+
+
+@contract(M + 'PythonPrimitiveToStoneDecoder.decode_nullable', properties=PD, raises=[bv.ValidationError])
+class decode_nullable:
+    params = {'self': DEC, 'data_type': Obj(bv.Nullable), 'obj': AnyVal()}
+
+    def requires(self, data_type, obj):
+        return _dec_requires(self, data_type, obj)
+
+    def expected(self, data_type, obj):
+        return S.decode_outcome(data_type, obj, self.strict)
+
+
+@contract(M + 'PythonPrimitiveToStoneDecoder.decode_struct_tree', bounded=True, properties=PD + ['C07'], raises=[bv.ValidationError])
+class decode_struct_tree:
+    params = {'self': DEC, 'data_type': Obj(bv.StructTree), 'obj': AnyVal()}
+
+    def requires(self, data_type, obj):
+        return _dec_requires(self, data_type, obj)
+
+    def expected(self, data_type, obj):
+        return S.decode_outcome(data_type, obj, self.strict)
+
+
+@contract(M + 'PythonPrimitiveToStoneDecoder.decode_union_dict', bounded=True, properties=PD + ['C07'], raises=[bv.ValidationError])
+class decode_union_dict:
+    """(tag, payload) of a union document in object form"""
+    params = {'self': DEC, 'data_type': Obj(bv.Union), 'obj': AnyVal()}
+
+    def requires(self, data_type, obj):
+        return _dec_requires(self, data_type, obj) and isinstance(obj, dict)
+
+    def expected(self, data_type, obj):
+        if '.tag' not in obj or not isinstance(obj['.tag'], str):
+            return Raise(bv.ValidationError)
+        if not S.union_tag_known(data_type, obj['.tag']):
+            if not self.strict and data_type.definition._catch_all is not None:
+                return Ret((data_type.definition._catch_all, None))
+            return Raise(bv.ValidationError)
+        if obj['.tag'] == data_type.definition._catch_all:
+            return Raise(bv.ValidationError)
+        if S.dec_member_ok(data_type.definition._tagmap[obj['.tag']], obj['.tag'], obj, self.strict):
+            return Ret((obj['.tag'], S.dec_member_val(data_type.definition._tagmap[obj['.tag']], obj['.tag'], obj,
+                                                      self.strict)))
+        return Raise(bv.ValidationError)
+
+make_stone_friendly.gen = staticmethod(lambda rng: dict(G.decode_case((bv.Primitive,))(rng), val=None) and _msf_case(rng))
+
+
+def _msf_case(rng):
+    d = G.decode_case((bv.Primitive,))(rng)
+    return {'self': d['self'], 'data_type': d['data_type'], 'val': d['obj'],
+            'validate': {'k': 'bool', 'v': rng.random() < 0.5}}
+
+
+make_stone_friendly.gen = staticmethod(_msf_case)
+determine_struct_tree_subtype.gen = staticmethod(G.decode_case((bv.StructTree,)))
+decode_struct.gen = staticmethod(G.decode_case((bv.Struct,)))
+decode_helper.gen = staticmethod(G.decode_case())
+decode_list.gen = staticmethod(G.decode_case((bv.List,)))
+decode_map.gen = staticmethod(G.decode_case((bv.Map,)))
+decode_nullable.gen = staticmethod(G.decode_case((bv.Nullable,)))
+decode_struct_tree.gen = staticmethod(G.decode_case((bv.StructTree,)))
+decode_union_dict.gen = staticmethod(G.decode_case((bv.Union,), need_dict=True))
